@@ -25,6 +25,19 @@ def build(u):
     u.fn(m, m.find_fn_in(im, "run"), "cln_plugin::PluginDriver::run")
     u.fn(m, m.find_fn_in(im, "dispatch_one"), "cln_plugin::PluginDriver::dispatch_one", stub=True)
     u.raw("}\n")
+    cs = [it for it in m._walk(m.index["items"]) if it["kind"] == "impl" and it.get("qual") == "ConfiguredPlugin"
+          and any(f["kind"] == "fn" and f["name"] == "start" for f in it.get("items", []))]
+    if len(cs) != 1:
+        from vlib.core import Undecided
+        raise Undecided(f"lost anchor: impl ConfiguredPlugin with start resolves to {len(cs)} places")
+    u.raw("impl<I, O> ConfiguredPlugin<I, O> {\n")
+    u.slice(m, m.find_fn_in(cs[0], "start"), "cln_plugin::ConfiguredPlugin::start#io",
+            r"^let output = self\.output;", r"^let input = ",
+            "fn start__io(self) -> (r: (Arc<Mutex<FramedWrite<O, JsonCodec>>>, FramedRead<I, JsonRpcCodec>))",
+            tail="(output, input)",
+            note="slice start#io: the two statements that take the handshake's writer and reader out of the ConfiguredPlugin; `self` is an env mirror "
+                 "of ConfiguredPlugin with the real field names input / output")
+    u.raw("}\n")
     u.auto_here(m, "cln_plugin")
     u.raw("}\n} // verus!\nfn main() {}\n")
     u.slice_assumptions.append("unit driver_run: PluginDriver / Plugin are env mirrors with the real field name `plugin` (the real structs hold boxed dyn callbacks); "
